@@ -51,7 +51,7 @@ def histories(draw):
     if draw(st.integers(0, 11)) == 0:
         at = draw(st.integers(0, len(ops)))
         ops.insert(at, ["insert_multiple", draw(huge_batch), draw(st.integers(0, 3)), draw(st.sampled_from(["inorder", "asis"])), "db", None, "m1"])
-    return {"ops": ops, "auto_index": draw(st.booleans()), "symlink": draw(st.integers(0, 7)) == 0}
+    return {"ops": ops, "auto_index": draw(st.booleans()), "symlink": draw(st.integers(0, 7)) == 0, "hardlink": draw(st.integers(0, 7)) == 0}
 
 
 def bulk_case(n, auto):
@@ -69,6 +69,14 @@ def make_link(path):
     with open(target, "w"):
         pass
     os.symlink(os.path.basename(target), path)
+
+
+def make_hardlink(path):
+    """The database file has a second name (a hard-linked backup): what counts is still what the opened path leads to."""
+    if not os.path.exists(path):
+        with open(path, "w"):
+            pass
+    os.link(path, path + ".second-name")
 
 
 def decode_image(img, d, n, auto):
@@ -92,7 +100,7 @@ def run_case(case, ctx, acc, kill_validation=0):
     try:
         return _run_case(case, ctx, acc, kill_validation)
     except Violation as v:
-        v.case = dict(v.case, auto_index=case["auto_index"], symlink=bool(case.get("symlink")), ops=v.case.get("ops", case["ops"]))
+        v.case = dict(v.case, auto_index=case["auto_index"], symlink=bool(case.get("symlink")), hardlink=bool(case.get("hardlink")), ops=v.case.get("ops", case["ops"]))
         v.case.pop("config", None)
         raise
 
@@ -104,6 +112,8 @@ def _run_case(case, ctx, acc, kill_validation=0):
     os.remove(real.path)
     if case.get("symlink"):
         make_link(real.path)
+    if case.get("hardlink"):
+        make_hardlink(real.path)
     world = iolayer.World(real.path, mode="snapshot")
     info = {"ops": [], "nontrivial": 0}
     try:
@@ -186,6 +196,8 @@ def replay_child(case, path, kill_at):
     real.path = path
     if case.get("symlink"):
         make_link(path)
+    if case.get("hardlink"):
+        make_hardlink(path)
     world = iolayer.World(path, mode="record", kill_at=kill_at)
     iolayer.install(world)
     real.open()
@@ -252,6 +264,7 @@ def run_shard(spec, ctx):
 def minimize(v, ctx, budget=60):
     case = {k: v.case[k] for k in ("ops", "auto_index")}
     link = bool(v.case.get("symlink"))
+    hard = bool(v.case.get("hardlink"))
     ops = list(case["ops"])
     best = v
     i = 0
@@ -262,7 +275,7 @@ def minimize(v, ctx, budget=60):
             i += 1
             continue
         try:
-            run_case({"ops": cand, "auto_index": case["auto_index"], "symlink": link}, core.Ctx("minimize", 0, ctx.known, ctx.scratch, 0), core.Acc())
+            run_case({"ops": cand, "auto_index": case["auto_index"], "symlink": link, "hardlink": hard}, core.Ctx("minimize", 0, ctx.known, ctx.scratch, 0), core.Acc())
             i += 1
         except Violation as w:
             if w.sub == v.sub:
@@ -276,7 +289,7 @@ def minimize(v, ctx, budget=60):
 
 
 def replay(sub, case, ctx):
-    run_case({"ops": case["ops"], "auto_index": case["auto_index"], "symlink": bool(case.get("symlink"))}, ctx, ctx.acc)
+    run_case({"ops": case["ops"], "auto_index": case["auto_index"], "symlink": bool(case.get("symlink")), "hardlink": bool(case.get("hardlink"))}, ctx, ctx.acc)
 
 
 def finish(merged, tier):
